@@ -1,2 +1,363 @@
-pub fn main(_args: &[String]) -> i32 { eprintln!("vectors: not built yet"); 2 }
-pub fn child_main() -> i32 { 2 }
+// Pure-function conformance: vectors enumerated by TLC from the reference definitions
+// (GlobVec.tla, Parser.tla) are evaluated by the real functions.  The real functions run
+// in a child process fed in batches with a time budget, every call under catch_unwind:
+// a panic, a non-termination (the batch is bisected down to the offending vector) or a
+// different answer is a divergence.
+
+use crate::command::{Command, Message};
+use crate::utils::{match_wildcard, normalize_sourcemask};
+use serde_json::{json, Value};
+use std::io::{BufRead, BufReader, BufWriter, Read, Write};
+use std::process::{Child, Command as PCommand, Stdio};
+use std::sync::mpsc;
+use std::time::Duration;
+
+fn panic_text(e: Box<dyn std::any::Any + Send>) -> String {
+    if let Some(s) = e.downcast_ref::<&str>() {
+        s.to_string()
+    } else if let Some(s) = e.downcast_ref::<String>() {
+        s.clone()
+    } else {
+        "panic".to_string()
+    }
+}
+
+// one request -> one response line
+fn eval(req: &Value) -> Value {
+    match req["k"].as_str().unwrap_or("") {
+        "glob" => {
+            let m = req["m"].as_str().unwrap_or("").to_string();
+            let t = req["t"].as_str().unwrap_or("").to_string();
+            match std::panic::catch_unwind(|| match_wildcard(&m, &t)) {
+                Ok(b) => json!({"r": b}),
+                Err(e) => json!({"panic": panic_text(e)}),
+            }
+        }
+        "norm" => {
+            let m = req["m"].as_str().unwrap_or("").to_string();
+            match std::panic::catch_unwind(|| normalize_sourcemask(&m)) {
+                Ok(s) => json!({"r": s}),
+                Err(e) => json!({"panic": panic_text(e)}),
+            }
+        }
+        "parse" => {
+            let line = req["line"].as_str().unwrap_or("").to_string();
+            match std::panic::catch_unwind(|| parse_view(&line)) {
+                Ok(v) => v,
+                Err(e) => json!({"panic": panic_text(e)}),
+            }
+        }
+        "ser" => {
+            // relay serialisation: message as received -> line with a source -> tokens
+            let line = req["line"].as_str().unwrap_or("").to_string();
+            let src = req["src"].as_str().unwrap_or("").to_string();
+            match std::panic::catch_unwind(|| match Message::from_shared_str(&line) {
+                Ok(m) => json!({"r": m.to_string_with_source(&src)}),
+                Err(e) => json!({"err": format!("{:?}", e)}),
+            }) {
+                Ok(v) => v,
+                Err(e) => json!({"panic": panic_text(e)}),
+            }
+        }
+        _ => json!({"err": "unknown request"}),
+    }
+}
+
+// what the implementation's tokeniser and command parser make of a line
+fn parse_view(line: &str) -> Value {
+    match Message::from_shared_str(line) {
+        Err(e) => json!({"msg": format!("{:?}", e), "exec": false}),
+        Ok(m) => {
+            let dbg = format!("{:?}", m);
+            // Message { source: .., command: "..", params: [..] } - fields are private to the
+            // module, so recover them from the Debug rendering
+            let (source, command, params) = parse_message_debug(&dbg);
+            let class = match Command::from_message(&m) {
+                Ok(_) => "ok".to_string(),
+                Err(e) => {
+                    let d = format!("{:?}", e);
+                    d.split(|c| c == '(' || c == ' ' || c == '{').next().unwrap_or("").to_string()
+                }
+            };
+            let exec = class == "ok";
+            let known = class != "UnknownCommand";
+            let enough = class != "NeedMoreParams";
+            json!({"msg": "ok", "source": source, "command": command, "params": params, "class": class,
+                   "exec": exec, "known": known, "enough": enough})
+        }
+    }
+}
+
+// parse `Message { source: Some("x"), command: "y", params: ["a", "b c"] }`
+fn parse_message_debug(d: &str) -> (Value, String, Vec<String>) {
+    fn read_str(s: &str) -> (String, &str) {
+        // s starts with '"'
+        let mut out = String::new();
+        let mut it = s[1..].char_indices();
+        while let Some((i, c)) = it.next() {
+            if c == '\\' {
+                if let Some((_, n)) = it.next() {
+                    match n {
+                        'n' => out.push('\n'),
+                        't' => out.push('\t'),
+                        'r' => out.push('\r'),
+                        'u' => {
+                            // \u{XXXX}
+                            let mut hex = String::new();
+                            for (_, h) in it.by_ref() {
+                                if h == '}' {
+                                    break;
+                                }
+                                if h != '{' {
+                                    hex.push(h);
+                                }
+                            }
+                            if let Some(ch) = u32::from_str_radix(&hex, 16).ok().and_then(char::from_u32) {
+                                out.push(ch);
+                            }
+                        }
+                        x => out.push(x),
+                    }
+                }
+            } else if c == '"' {
+                return (out, &s[1 + i + 1..]);
+            } else {
+                out.push(c);
+            }
+        }
+        (out, "")
+    }
+    let mut source = json!([]);
+    let mut rest = d;
+    if let Some(p) = rest.find("source: ") {
+        rest = &rest[p + 8..];
+        if rest.starts_with("Some(") {
+            let (s, r) = read_str(&rest[5..]);
+            source = json!([s]);
+            rest = r;
+        }
+    }
+    let mut command = String::new();
+    if let Some(p) = rest.find("command: ") {
+        let (s, r) = read_str(&rest[p + 9..]);
+        command = s;
+        rest = r;
+    }
+    let mut params = vec![];
+    if let Some(p) = rest.find("params: [") {
+        rest = &rest[p + 9..];
+        loop {
+            let r = rest.trim_start_matches(|c| c == ',' || c == ' ');
+            if r.starts_with('"') {
+                let (s, r2) = read_str(r);
+                params.push(s);
+                rest = r2;
+            } else {
+                break;
+            }
+        }
+    }
+    (source, command, params)
+}
+
+pub fn child_main() -> i32 {
+    std::panic::set_hook(Box::new(|_| {}));
+    let stdin = std::io::stdin();
+    let stdout = std::io::stdout();
+    let mut out = BufWriter::new(stdout.lock());
+    for line in stdin.lock().lines() {
+        let line = match line {
+            Ok(l) => l,
+            Err(_) => break,
+        };
+        if line == "FLUSH" {
+            writeln!(out, "FLUSHED").ok();
+            out.flush().ok();
+            continue;
+        }
+        let req: Value = serde_json::from_str(&line).unwrap_or(json!({}));
+        let r = eval(&req);
+        writeln!(out, "{}", r).ok();
+    }
+    out.flush().ok();
+    0
+}
+
+struct Worker {
+    child: Child,
+    rx: mpsc::Receiver<String>,
+}
+
+impl Worker {
+    fn spawn() -> Worker {
+        let exe = std::env::current_exe().unwrap();
+        let mut child = PCommand::new(exe)
+            .arg("vecchild")
+            .stdin(Stdio::piped())
+            .stdout(Stdio::piped())
+            .stderr(Stdio::null())
+            .spawn()
+            .expect("spawn child");
+        let stdout = child.stdout.take().unwrap();
+        let (tx, rx) = mpsc::channel();
+        std::thread::spawn(move || {
+            for l in BufReader::new(stdout).lines() {
+                match l {
+                    Ok(l) => {
+                        if tx.send(l).is_err() {
+                            break;
+                        }
+                    }
+                    Err(_) => break,
+                }
+            }
+        });
+        Worker { child, rx }
+    }
+
+    // Some(results) if the whole batch came back in time
+    fn run(&mut self, batch: &[Value], budget: Duration) -> Option<Vec<Value>> {
+        {
+            let stdin = self.child.stdin.as_mut()?;
+            let mut buf = String::new();
+            for b in batch {
+                buf.push_str(&b.to_string());
+                buf.push('\n');
+            }
+            buf.push_str("FLUSH\n");
+            if stdin.write_all(buf.as_bytes()).is_err() {
+                return None;
+            }
+            stdin.flush().ok();
+        }
+        let mut res = vec![];
+        let deadline = std::time::Instant::now() + budget;
+        loop {
+            let left = deadline.saturating_duration_since(std::time::Instant::now());
+            match self.rx.recv_timeout(left) {
+                Ok(l) => {
+                    if l == "FLUSHED" {
+                        return if res.len() == batch.len() { Some(res) } else { None };
+                    }
+                    res.push(serde_json::from_str(&l).unwrap_or(json!({"err": "bad child line"})));
+                }
+                Err(_) => return None,
+            }
+        }
+    }
+
+    fn kill(mut self) {
+        let _ = self.child.kill();
+        let _ = self.child.wait();
+    }
+}
+
+// evaluate all requests; a request that never comes back is reported as {"hang":true}
+fn eval_all(reqs: &[Value]) -> Vec<Value> {
+    let mut out = vec![json!(null); reqs.len()];
+    let mut w = Worker::spawn();
+    let mut stack: Vec<(usize, usize)> = vec![];
+    let bs = 5000;
+    let mut i = 0;
+    while i < reqs.len() {
+        stack.push((i, (i + bs).min(reqs.len())));
+        i += bs;
+    }
+    stack.reverse();
+    while let Some((a, b)) = stack.pop() {
+        let budget = Duration::from_millis(3000 + (b - a) as u64 / 2);
+        match w.run(&reqs[a..b], budget) {
+            Some(r) => {
+                for (k, v) in r.into_iter().enumerate() {
+                    out[a + k] = v;
+                }
+            }
+            None => {
+                w.kill();
+                w = Worker::spawn();
+                if b - a == 1 {
+                    out[a] = json!({"hang": true});
+                } else {
+                    let mid = (a + b) / 2;
+                    stack.push((mid, b));
+                    stack.push((a, mid));
+                }
+            }
+        }
+    }
+    w.kill();
+    out
+}
+
+pub fn main(args: &[String]) -> i32 {
+    if args.len() < 3 {
+        eprintln!("vectors <glob|norm|parse> <in.ndjson> <out.ndjson>");
+        return 2;
+    }
+    let kind = args[0].as_str();
+    let f = std::fs::File::open(&args[1]).expect("open vectors");
+    let mut lines: Vec<Value> = vec![];
+    for l in BufReader::new(f).lines() {
+        let l = l.unwrap();
+        if l.trim().is_empty() {
+            continue;
+        }
+        lines.push(serde_json::from_str(&l).expect("vector json"));
+    }
+    let mut reqs = vec![];
+    let mut expect = vec![];
+    match kind {
+        "glob" => {
+            // first line {"texts": [...]}, then {"m": mask, "ts": [matching texts]}
+            let texts: Vec<String> = lines[0]["texts"]
+                .as_array()
+                .unwrap()
+                .iter()
+                .map(|x| x.as_str().unwrap().to_string())
+                .collect();
+            for v in &lines[1..] {
+                let m = v["m"].as_str().unwrap();
+                let ts: std::collections::HashSet<&str> =
+                    v["ts"].as_array().unwrap().iter().map(|x| x.as_str().unwrap()).collect();
+                for t in &texts {
+                    reqs.push(json!({"k": "glob", "m": m, "t": t}));
+                    expect.push(json!(ts.contains(t.as_str())));
+                }
+            }
+        }
+        "norm" => {
+            for v in &lines {
+                reqs.push(json!({"k": "norm", "m": v["m"]}));
+                expect.push(v["n"].clone());
+            }
+        }
+        "parse" => {
+            for v in &lines {
+                reqs.push(json!({"k": "parse", "line": v["line"]}));
+                expect.push(v["exp"].clone());
+            }
+        }
+        _ => return 2,
+    }
+    let res = eval_all(&reqs);
+    let mut w = BufWriter::new(std::fs::File::create(&args[2]).expect("create out"));
+    let mut bad = 0;
+    for ((rq, ex), got) in reqs.iter().zip(expect.iter()).zip(res.iter()) {
+        let ok = match kind {
+            "glob" | "norm" => got.get("r") == Some(ex),
+            _ => {
+                // compare the fields the expectation names
+                ex.as_object()
+                    .map(|o| o.iter().all(|(k, v)| got.get(k) == Some(v)))
+                    .unwrap_or(false)
+            }
+        };
+        if !ok {
+            bad += 1;
+            writeln!(w, "{}", json!({"kind": "vector", "class": kind, "req": rq, "expected": ex, "got": got})).unwrap();
+        }
+    }
+    writeln!(w, "{}", json!({"summary": true, "class": kind, "vectors": reqs.len(), "divergent": bad})).unwrap();
+    w.flush().unwrap();
+    0
+}
